@@ -3,11 +3,17 @@
  *
  * Line:  ptr <tree in jvtext> <op>;<op>;...
  *   g<hexptr>            json_pointer_get(root, ptr, &res)
- *   G<hexptr>            json_pointer_getf(root, &res, "%s", ptr)
- *   H<hexptr>            json_pointer_getf(root, &res, <ptr with every % doubled>)
+ *   json_pointer_getf(root, &res, fmt, ...) with the SAME formatted string <ptr>, in the
+ *   format shapes a caller uses:
+ *   G<hexptr>            "%s", ptr
+ *   H<hexptr>            <ptr with every % doubled>                    (no arguments)
+ *   I<hexptr>            "/%s", ptr+1          ("%s" when ptr has no leading '/')
+ *   J<hexptr>            "%s%s", first half, second half
+ *   D<hexptr>            "%s/%d", ptr up to its last '/', last token   (when that token is a
+ *                        canonical decimal < 10^9; "%s" otherwise)
  *   s<hexptr>=<jvtext>   json_pointer_set(&root, ptr, value)
- *   S<hexptr>=<jvtext>   json_pointer_setf(&root, value, "%s", ptr)
- *   T<hexptr>=<jvtext>   json_pointer_setf(&root, value, <ptr with every % doubled>)
+ *   S T U V E <hexptr>=<jvtext>   json_pointer_setf(&root, value, fmt, ...) in the shapes of
+ *                        G H I J D
  * Observation per op:  <rc> <errno> <id> <typed dump of the whole tree after the op>
  *   id of a get: the location of the returned node = the first node in document order
  *   whose address is the returned pointer, written r(.k<hexkey|->|.i<index>)*; NULL when the
@@ -25,7 +31,8 @@ const char *DOMAIN = "ptr";
  * an array can be made to hold n slots iff n <= PTR_SLOT_LIMIT = PTR_ALLOC_LIMIT / 8) */
 #define PTR_ALLOC_LIMIT ((size_t)1 << 24)
 
-struct pathbuf { char s[4096]; size_t n; };
+#define IDBUF ((size_t)1 << 20)
+struct pathbuf { char *s; size_t n; };
 
 static int find_node(struct json_object *cur, struct json_object *want, struct pathbuf *pb)
 {
@@ -35,18 +42,21 @@ static int find_node(struct json_object *cur, struct json_object *want, struct p
 	if (json_object_get_type(cur) == json_type_array) {
 		size_t i, n = json_object_array_length(cur);
 		for (i = 0; i < n; i++) {
-			pb->n = keep + (size_t)snprintf(pb->s + keep, sizeof pb->s - keep, ".i%zu", i);
-			if (pb->n < sizeof pb->s - 64 && find_node(json_object_array_get_idx(cur, i), want, pb)) return 1;
+			if (keep + 64 >= IDBUF) break;
+			pb->n = keep + (size_t)sprintf(pb->s + keep, ".i%zu", i);
+			if (find_node(json_object_array_get_idx(cur, i), want, pb)) return 1;
 		}
 	} else if (json_object_get_type(cur) == json_type_object) {
 		struct lh_entry *e;
+		static const char hexd[] = "0123456789abcdef";
 		for (e = json_object_get_object(cur)->head; e; e = e->next) {
 			const unsigned char *k = (const unsigned char *)lh_entry_k(e);
 			size_t j, kl = strlen((const char *)k);
-			if (keep + 2 * kl + 70 >= sizeof pb->s) continue;
-			pb->n = keep + (size_t)sprintf(pb->s + keep, ".k");
+			if (keep + 2 * kl + 70 >= IDBUF) continue;
+			pb->n = keep;
+			pb->s[pb->n++] = '.'; pb->s[pb->n++] = 'k';
 			if (kl == 0) pb->s[pb->n++] = '-';
-			for (j = 0; j < kl; j++) pb->n += (size_t)sprintf(pb->s + pb->n, "%02x", k[j]);
+			for (j = 0; j < kl; j++) { pb->s[pb->n++] = hexd[k[j] >> 4]; pb->s[pb->n++] = hexd[k[j] & 15]; }
 			pb->s[pb->n] = 0;
 			if (find_node((struct json_object *)lh_entry_v(e), want, pb)) return 1;
 		}
@@ -58,19 +68,27 @@ static int find_node(struct json_object *cur, struct json_object *want, struct p
 
 static void print_id(struct json_object *root, struct json_object *res)
 {
+	static char *buf;
 	struct pathbuf pb;
 	if (!res) { printf("NULL"); return; }
+	if (!buf) buf = (char *)(malloc)(IDBUF);
+	pb.s = buf;
 	pb.s[0] = 'r'; pb.s[1] = 0; pb.n = 1;
 	if (find_node(root, res, &pb)) printf("%s", pb.s);
 	else printf("OUTSIDE");
 }
 
-/* NUL-terminated copy of a hex pointer string in an exact-size block */
+/* NUL-terminated copy of n bytes in an exact-size block (so ASan sees overreads) */
+static char *cstr_n(const char *b, size_t n)
+{
+	char *z = (char *)(malloc)(n + 1);
+	memcpy(z, b, n); z[n] = 0;
+	return z;
+}
 static char *cstr_of_hex(const char *hex)
 {
 	size_t n; unsigned char *b = unhex(hex, &n);
-	char *z = (char *)(malloc)(n + 1);
-	memcpy(z, b, n); z[n] = 0;
+	char *z = cstr_n((const char *)b, n);
 	(free)(b);
 	return z;
 }
@@ -80,6 +98,73 @@ static char *double_percent(const char *s)
 	for (; *s; s++) { *q++ = *s; if (*s == '%') *q++ = '%'; }
 	*q = 0;
 	return z;
+}
+
+/* the last token as an int for "%s/%d": canonical decimal below 10^9, with a '/' before it */
+static int last_token_int(const char *p, size_t *cut, int *val)
+{
+	const char *sl = strrchr(p, '/');
+	size_t n, i;
+	long v = 0;
+	if (!sl) return 0;
+	n = strlen(sl + 1);
+	if (n == 0 || n > 9 || (n > 1 && sl[1] == '0')) return 0;
+	for (i = 0; i < n; i++) {
+		if (sl[1 + i] < '0' || sl[1 + i] > '9') return 0;
+		v = v * 10 + (sl[1 + i] - '0');
+	}
+	*cut = (size_t)(sl - p);
+	*val = (int)v;
+	return 1;
+}
+
+/* one call of the f-variant: is_set selects setf; the format shape is `shape` (G H I J D) */
+static int call_f(int is_set, char shape, struct json_object **root, struct json_object **res,
+                  struct json_object *val, const char *p)
+{
+	int rc;
+	size_t len = strlen(p);
+#define CALLF(...) (is_set ? json_pointer_setf(root, val, __VA_ARGS__) : json_pointer_getf(*root, res, __VA_ARGS__))
+	switch (shape) {
+	case 'H': {
+		char *f = double_percent(p);
+		rc = CALLF(f);
+		(free)(f);
+		return rc; }
+	case 'I':
+		if (p[0] == '/') {
+			char *a = cstr_n(p + 1, len - 1);
+			rc = CALLF("/%s", a);
+			(free)(a);
+			return rc;
+		}
+		break;
+	case 'J': {
+		size_t h = len / 2;
+		char *a = cstr_n(p, h), *b = cstr_n(p + h, len - h);
+		rc = CALLF("%s%s", a, b);
+		(free)(a); (free)(b);
+		return rc; }
+	case 'D': {
+		size_t cut; int v;
+		if (last_token_int(p, &cut, &v)) {
+			char *a = cstr_n(p, cut);
+			rc = CALLF("%s/%d", a, v);
+			(free)(a);
+			return rc;
+		}
+		break; }
+	default:
+		break;
+	}
+	return CALLF("%s", p);
+#undef CALLF
+}
+
+static char get_shape(char kind) { return kind; }                      /* G H I J D */
+static char set_shape(char kind)                                       /* S T U V E */
+{
+	switch (kind) { case 'S': return 'G'; case 'T': return 'H'; case 'U': return 'I'; case 'V': return 'J'; default: return 'D'; }
 }
 
 void run_case(char *rest)
@@ -101,19 +186,18 @@ void run_case(char *rest)
 		char kind = tok[0];
 		int rc, err;
 		switch (kind) {
-		case 'g': case 'G': case 'H': {
+		case 'g': case 'G': case 'H': case 'I': case 'J': case 'D': {
 			char *p = cstr_of_hex(tok + 1);
 			struct json_object *res = (struct json_object *)(uintptr_t)0x10;   /* never a node */
 			errno = 0;
 			if (kind == 'g') rc = json_pointer_get(root, p, &res);
-			else if (kind == 'G') rc = json_pointer_getf(root, &res, "%s", p);
-			else { char *f = double_percent(p); rc = json_pointer_getf(root, &res, f); (free)(f); }
+			else rc = call_f(0, get_shape(kind), &root, &res, NULL, p);
 			err = errno;
 			(free)(p);
 			printf("%d %s ", rc, rc < 0 ? errno_name(err) : "0");
 			if (rc == 0) print_id(root, res); else putchar('-');
 			break; }
-		case 's': case 'S': case 'T': {
+		case 's': case 'S': case 'T': case 'U': case 'V': case 'E': {
 			char *eq = strchr(tok, '=');
 			char *p;
 			const char *vp;
@@ -129,8 +213,7 @@ void run_case(char *rest)
 			if (verr || *vp) { printf("BADVALUE"); (free)(p); json_object_put(val); json_object_put(root); return; }
 			errno = 0;
 			if (kind == 's') rc = json_pointer_set(&root, p, val);
-			else if (kind == 'S') rc = json_pointer_setf(&root, val, "%s", p);
-			else { char *f = double_percent(p); rc = json_pointer_setf(&root, val, f); (free)(f); }
+			else rc = call_f(1, set_shape(kind), &root, NULL, val, p);
 			err = errno;
 			(free)(p);
 			if (rc < 0) json_object_put(val);       /* still ours */
